@@ -1,6 +1,7 @@
 // C11 — byte-level key scheme of the Fjall backend (crates/storage/src/kv_database/fjall.rs).
 //@ rule R10
 //@ rule R11
+//@ rule R17
 #![allow(unused_imports, unused_variables, dead_code, non_snake_case)]
 use vstd::prelude::*;
 use vstd::std_specs::convert::*;
@@ -10,6 +11,9 @@ verus! {
 //@ include inc/bytes_order.rs
 
 //@ include inc/c11_prelude.rs
+
+/// struct stand-in (field subset): the functions under contract only pass `plugin` through, opaquely
+pub struct Impl { pub plugin: Plugin }
 
 /// fjall refuses empty keys: an empty key image is padded with one 0 byte
 pub open spec fn pad(b: Seq<u8>) -> Seq<u8> { if b.len() == 0 { seq![0u8] } else { b } }
@@ -104,6 +108,9 @@ pub open spec fn member_key<C: KeyOfSetColumn>(k: &C::Key, e: &C::Element) -> Se
 pub type Keyspace = Handle;
 pub mod fjall {
     use super::*;
+    /// fjall::Iter: remembers what it scans
+    #[verifier::external_body]
+    pub struct Iter { _p: u8 }
     /// interface stand-in for fjall::OwnedWriteBatch: an ordered log of operations (atomic application at commit: trusted backend)
     #[verifier::external_body]
     pub struct OwnedWriteBatch { _p: u8 }
@@ -227,6 +234,61 @@ pub proof fn lemma_ops_cost_take(ops: Seq<Operation>, i: int)
             ty: C::STABLE_TYPE_ID, kind: ColumnKind::KeyOfSet, key: member_key::<C>(key, value) })
 //@ end
 
+
+
+// ---------------------------------------------------------------- readers: the same keyspace, the same key bytes as the writers
+/// fjall's value slice and iterator (interface stand-ins)
+#[verifier::external_body]
+pub struct UserValue { _p: u8 }
+impl UserValue {
+    pub uninterp spec fn view_bytes(&self) -> Seq<u8>;
+    #[verifier::external_body]
+    pub fn as_ref(&self) -> (r: &[u8]) ensures r@ == self.view_bytes() { unimplemented!() }
+}
+impl fjall::Iter {
+    /// the keyspace and the key prefix this iterator enumerates (every committed key that starts with the prefix, and only those:
+    /// fjall's `prefix()`, trusted)
+    pub uninterp spec fn scans(&self) -> (StableTypeID, ColumnKind, Seq<u8>);
+}
+impl Handle {
+    /// Keyspace::get
+    #[verifier::external_body]
+    pub fn get<K: AsBytes>(&self, key: K) -> (r: Result<Option<UserValue>, std::fmt::Error>)
+        ensures r matches Ok(o) && (match o { Some(b) => stored(self.ty(), self.kind(), key.seq()) == Some(b.view_bytes()), None => stored(self.ty(), self.kind(), key.seq()) is None })
+    { unimplemented!() }
+    /// Keyspace::prefix
+    #[verifier::external_body]
+    pub fn prefix<K: AsBytes>(&self, prefix: K) -> (r: fjall::Iter)
+        ensures r.scans() == (self.ty(), self.kind(), prefix.seq())
+    { unimplemented!() }
+}
+//@ struct crates/storage/src/kv_database/fjall.rs :: Fjall
+//@ struct crates/storage/src/kv_database/fjall.rs :: ScanMemberIterator
+pub trait KvDatabaseScan {
+    fn scan_members<'s, C: KeyOfSetColumn>(&'s self, key: &'s C::Key) -> ScanMemberIterator<C>
+        requires 8 + key.bytes().len() <= usize::MAX;
+}
+//@ impl crates/storage/src/kv_database/fjall.rs :: impl KvDatabase for Fjall
+//@ member get_wide_column
+//@ ret r
+//@ sig
+        ensures
+            match stored(W::STABLE_TYPE_ID, ColumnKind::WideColumn, wide_key::<W, C>(key)) {
+                None => r is None,
+                Some(b) => r matches Some(w) && (forall|v: C| b == #[trigger] v.bytes() ==> w.bytes() == v.bytes()),
+            }
+//@ end
+//@ impl crates/storage/src/kv_database/fjall.rs :: impl KvDatabase for Fjall
+//@ header-sub KvDatabase for Fjall => KvDatabaseScan for Fjall
+//@ member scan_members
+//@ text-sub Self::ScanMemberIterator<C> => ScanMemberIterator<C>
+//@ ret r
+//@ sig
+        ensures
+            // the scan enumerates the keyspace of exactly this set column under exactly the prefix lp(key): by lemma_no_leak /
+            // lemma_member_split (spec level) that is exactly the stored members of exactly this key
+            r.iter.scans() == (C::STABLE_TYPE_ID, ColumnKind::KeyOfSet, lp(key.bytes()))
+//@ end
 
 } // verus!
 fn main() {}
